@@ -104,27 +104,27 @@ pub fn plan_for(prop: &str, tier: &str) -> Plan {
         }
         "C08" => {
             p.scenarios = if q {
-                sc(&[("read", 1), ("read-single", 0), ("read-single", 1), ("read-swap", 0), ("read-swap", 1), ("read-regain", 1), ("read-rm1", 1), ("read-rm1", 2), ("read-div", 2), ("read-five", 0), ("read-joint1", 0), ("read-joint1", 1), ("read-five", 1), ("read-cc", 0), ("read-lagf", 2), ("read", 2)])
+                sc(&[("read", 1), ("read-single", 0), ("read-single", 1), ("read-swap", 0), ("read-swap", 1), ("read-regain", 1), ("read-emptyctx", 1), ("read-rm1", 1), ("read-rm1", 2), ("read-div", 2), ("read-five", 0), ("read-joint1", 0), ("read-joint1", 1), ("read-five", 1), ("read-cc", 0), ("read-lagf", 2), ("read", 2)])
             } else {
-                sc(&[("read", 1), ("read-single", 0), ("read-single", 1), ("read-swap", 0), ("read-swap", 1), ("read-regain", 1), ("read-rm1", 1), ("read-rm1", 2), ("read-div", 2), ("read-five", 0), ("read-joint1", 0), ("read-joint1", 1), ("read-five", 1), ("read-cc", 0), ("read-lagf", 2), ("read", 2), ("read-nofwd", 2), ("member-rm1-2v", 1), ("read-single", 2), ("read", 3), ("read-cc", 1), ("read", 4), ("read", 5)])
+                sc(&[("read", 1), ("read-single", 0), ("read-single", 1), ("read-swap", 0), ("read-swap", 1), ("read-regain", 1), ("read-emptyctx", 1), ("read-rm1", 1), ("read-rm1", 2), ("read-div", 2), ("read-five", 0), ("read-joint1", 0), ("read-joint1", 1), ("read-five", 1), ("read-cc", 0), ("read-lagf", 2), ("read", 2), ("read-nofwd", 2), ("member-rm1-2v", 1), ("read-single", 2), ("read", 3), ("read-cc", 1), ("read", 4), ("read", 5)])
             };
             p.required_stats = vec![Stat::ReadStates];
             p.explanation = "explicit-state exploration; ghost max commit index over all nodes recorded when a read is issued; every ReadState in any Ready must be returned at the issuer with index >= that value".into();
         }
         "C09" => {
             p.scenarios = if q {
-                sc(&[("member-joint", 1), ("member-rm1", 0), ("member-rm1-camp", 0), ("read-swap-camp", 1), ("member-rm1-2v", 0), ("member-mix-page", 0), ("member-joint-al", 0), ("member-jd", 0), ("member-a1", 0), ("snap-jback", 0), ("xfer-cc-al", 0), ("member-fasync", 0), ("member", 1), ("member-eager", 1), ("member-mix", 0)])
+                sc(&[("member-joint", 1), ("member-rm1", 0), ("member-rm1-camp", 0), ("member-joint-xe", 1), ("read-swap-camp", 1), ("member-auto-al", 0), ("member-rm1-2v", 0), ("member-mix-page", 0), ("member-joint-al", 0), ("member-jd", 0), ("member-a1", 0), ("snap-jback", 0), ("xfer-cc-al", 0), ("member-fasync", 0), ("member", 1), ("member-eager", 1), ("member-mix", 0)])
             } else {
-                sc(&[("member-joint", 1), ("member-rm1", 1), ("member-rm1-camp", 0), ("read-swap-camp", 1), ("member-rm1-2v", 0), ("member-mix-page", 0), ("member-joint-al", 0), ("member-jd", 0), ("member-a1", 0), ("snap-jback", 0), ("xfer-cc-al", 0), ("member-fasync", 0), ("member-mix", 1), ("member", 1), ("member-rm1-2v", 1), ("member-eager", 1), ("member-joint", 2), ("member", 2), ("member-rm1", 2), ("member", 3), ("member-async", 1), ("member-mix", 2)])
+                sc(&[("member-joint", 1), ("member-rm1", 1), ("member-rm1-camp", 0), ("member-joint-xe", 1), ("read-swap-camp", 1), ("member-auto-al", 0), ("member-rm1-2v", 0), ("member-mix-page", 0), ("member-joint-al", 0), ("member-jd", 0), ("member-a1", 0), ("snap-jback", 0), ("xfer-cc-al", 0), ("member-fasync", 0), ("member-mix", 1), ("member", 1), ("member-rm1-2v", 1), ("member-eager", 1), ("member-joint", 2), ("member", 2), ("member-rm1", 2), ("member", 3), ("member-async", 1), ("member-mix", 2)])
             };
             p.required_stats = vec![Stat::CcAccepted, Stat::CcNeutralised, Stat::ConfApplied, Stat::JointEntered];
             p.explanation = "explicit-state exploration of V1/V2 proposals at leader and follower with apply lag, elections, restarts; proposal filter relation on every accepted conf-change proposal; no election over an unapplied committed change; every node's configuration compared with the reference fold of the applied membership entries".into();
         }
         "C10" => {
             p.scenarios = if q {
-                sc(&[("fig8-div-live", 1), ("snap-live", 0), ("snap-busy-live", 0), ("read-swap-crash-live", 0), ("snap-cq2-live", 0), ("elect-pvcq-dead1-slow3-live", 0), ("xfer-abort-lost-pvcq-live", 0), ("member-promo-live", 0), ("repl-skip-dropped-live", 0), ("repl-dropped-live", 0), ("xfer-live", 0), ("stale-pvcq-live", 0), ("flow-elect-live", 0), ("member-live", 0)])
+                sc(&[("fig8-div-live", 1), ("snap-live", 0), ("flow-elect-inh2-live", 1), ("snap-busy-live", 0), ("read-swap-crash-live", 0), ("snap-cq2-live", 0), ("elect-pvcq-dead1-slow3-live", 0), ("xfer-abort-lost-pvcq-live", 0), ("member-promo-live", 0), ("repl-skip-dropped-live", 0), ("repl-dropped-live", 0), ("xfer-live", 0), ("stale-pvcq-live", 0), ("flow-elect-live", 0), ("member-live", 0)])
             } else {
-                sc(&[("fig8-div-live", 1), ("snap-live", 0), ("snap-busy-live", 0), ("read-swap-crash-live", 0), ("snap-cq2-live", 0), ("elect-pvcq-dead1-slow3-live", 0), ("xfer-abort-lost-pvcq-live", 0), ("member-promo-live", 0), ("repl-skip-dropped-live", 0), ("repl-dropped-live", 0), ("xfer-live", 0), ("stale-pvcq-live", 0), ("flow-elect-live", 0), ("member-live", 0), ("flow-live", 0), ("snap-live", 1), ("snap-cq2-live", 1), ("member-live", 1), ("xfer-abort-pvcq-live", 0), ("read-swap-crash-live", 1), ("snap-busy-live", 1), ("fig8-div-live", 2), ("flow-live", 1), ("xfer-live", 1), ("fig8-live", 1)])
+                sc(&[("fig8-div-live", 1), ("snap-live", 0), ("flow-elect-inh2-live", 1), ("snap-busy-live", 0), ("read-swap-crash-live", 0), ("snap-cq2-live", 0), ("elect-pvcq-dead1-slow3-live", 0), ("xfer-abort-lost-pvcq-live", 0), ("member-promo-live", 0), ("repl-skip-dropped-live", 0), ("repl-dropped-live", 0), ("xfer-live", 0), ("stale-pvcq-live", 0), ("flow-elect-live", 0), ("member-live", 0), ("flow-live", 0), ("snap-live", 1), ("snap-cq2-live", 1), ("member-live", 1), ("xfer-abort-pvcq-live", 0), ("read-swap-crash-live", 1), ("snap-busy-live", 1), ("fig8-div-live", 2), ("flow-live", 1), ("xfer-live", 1), ("fig8-live", 1)])
             };
             p.required_stats = vec![Stat::LiveSuffixRuns];
             p.explanation = "bounded convergence from every reachable state: for every distinct state of the prefix spaces a deterministic fault-free suffix (restart, complete persistence, report snapshots, (n+3)*max_timeout rounds of tick+deliver-to-quiescence, fresh proposal, same again) must end with one leader, converged logs and the fresh entry applied on every running member; a state counts as a violation only if it fails under all three election-timeout schedulers; when a MsgSnapshot takes part in the recovery the suffix is run a second time with snapshots on a slow side channel (2*max_timeout+2 rounds per snapshot, heartbeats and appends flowing, status reported on arrival)".into();
@@ -133,18 +133,18 @@ pub fn plan_for(prop: &str, tier: &str) -> Plan {
         }
         "C13" => {
             p.scenarios = if q {
-                sc(&[("flow", 0), ("flow-cap", 0), ("repl-i1-sz", 1), ("repl", 1), ("repl-div", 1), ("repl-mix", 1), ("repl-batch-probe", 0), ("repl-grown", 0), ("snap-unr", 0), ("snap-unr", 1), ("snap", 1), ("flow-elect-inherit", 0), ("repl-batch", 1), ("flow-elect", 0), ("fig8-back-t4", 0), ("flow", 1)])
+                sc(&[("flow", 0), ("flow-cap", 0), ("repl-i1-sz", 1), ("repl", 1), ("repl-div", 1), ("repl-mix", 1), ("repl-batch-probe", 0), ("repl-grown", 0), ("flow-elect-inh2", 1), ("flow-p3", 0), ("snap-unr", 0), ("snap-unr", 1), ("snap", 1), ("flow-elect-inherit", 0), ("repl-batch", 1), ("flow-elect", 0), ("fig8-back-t4", 0), ("flow", 1)])
             } else {
-                sc(&[("flow", 0), ("flow-cap", 0), ("repl-i1-sz", 1), ("repl", 1), ("repl-div", 1), ("repl-mix", 1), ("repl-batch-probe", 0), ("repl-grown", 0), ("snap-unr", 0), ("snap-unr", 1), ("snap", 1), ("flow-elect-inherit", 0), ("repl-batch", 1), ("flow-elect", 0), ("fig8-back-t4", 0), ("flow", 1), ("flow-div", 1), ("flow-batch", 1), ("repl-fetch", 1), ("flow-cap", 1), ("repl-mix", 3), ("repl", 2), ("flow", 2), ("repl-batch", 2)])
+                sc(&[("flow", 0), ("flow-cap", 0), ("repl-i1-sz", 1), ("repl", 1), ("repl-div", 1), ("repl-mix", 1), ("repl-batch-probe", 0), ("repl-grown", 0), ("flow-elect-inh2", 1), ("flow-p3", 0), ("snap-unr", 0), ("snap-unr", 1), ("snap", 1), ("flow-elect-inherit", 0), ("repl-batch", 1), ("flow-elect", 0), ("fig8-back-t4", 0), ("flow", 1), ("flow-div", 1), ("flow-batch", 1), ("repl-fetch", 1), ("flow-cap", 1), ("repl-mix", 3), ("repl", 2), ("flow", 2), ("repl-batch", 2)])
             };
             p.required_stats = vec![Stat::AppendsChecked, Stat::HeartbeatsChecked, Stat::WindowFull, Stat::ProbePaused, Stat::ProposalsAccepted, Stat::ProposalsRefused];
             p.explanation = "explicit-state exploration over all ack/reject/heartbeat-response orders incl. stale, duplicated and reordered ones and runtime window resizing; reference window model per (leader, follower) driven by generated and delivered messages; every generated MsgAppend / MsgHeartbeat checked for well-formedness against the leader's own log; ghost of uncommitted payload bytes".into();
         }
         "C15" => {
             p.scenarios = if q {
-                sc(&[("snap", 1), ("snap-joint", 0), ("snap-jback", 0), ("snap-jauto", 0), ("snap-unr", 0), ("snap-busy", 0), ("snap-busy", 1), ("snap-fig8", 1), ("snap-req", 0), ("snap", 2)])
+                sc(&[("snap", 1), ("snap-joint", 0), ("snap-jback", 0), ("snap-jauto", 0), ("snap-prec", 0), ("snap-prec", 1), ("snap-unr", 0), ("snap-busy", 0), ("snap-busy", 1), ("snap-fig8", 1), ("snap-req", 0), ("snap", 2)])
             } else {
-                sc(&[("snap", 1), ("snap-joint", 0), ("snap-jback", 0), ("snap-jauto", 0), ("snap-unr", 0), ("snap-busy", 0), ("snap-busy", 1), ("snap-fig8", 1), ("snap-req", 0), ("snap", 2), ("snap-req", 1), ("snap-memq", 1), ("snap-req-memq", 0), ("snap-fig8", 2), ("snap-joint", 1), ("snap", 3), ("snap-joint", 2), ("snap", 4)])
+                sc(&[("snap", 1), ("snap-joint", 0), ("snap-jback", 0), ("snap-jauto", 0), ("snap-prec", 0), ("snap-prec", 1), ("snap-unr", 0), ("snap-busy", 0), ("snap-busy", 1), ("snap-fig8", 1), ("snap-req", 0), ("snap", 2), ("snap-req", 1), ("snap-memq", 1), ("snap-req-memq", 0), ("snap-fig8", 2), ("snap-joint", 1), ("snap", 3), ("snap-joint", 2), ("snap", 4)])
             };
             p.required_stats = vec![Stat::SnapshotsInstalled, Stat::SnapshotsSent];
             p.explanation = "explicit-state exploration over compaction points, lost/duplicated/stale/reordered MsgSnapshot, status reports, follower crash around the install; install / ignore / fast-forward post-conditions and the leader's send condition as pre/post relations".into();
@@ -161,18 +161,18 @@ pub fn plan_for(prop: &str, tier: &str) -> Plan {
         }
         "C17" => {
             p.scenarios = if q {
-                sc(&[("xfer", 0), ("xfer-lag", 0), ("xfer-lag2", 0), ("xfer-race", 0), ("xfer-abort", 0), ("xfer-abort-pvcq", 0), ("xfer-cc-al", 0), ("xfer-pipe", 0), ("xfer-lag-cc", 0), ("xfer", 1), ("xfer-race", 1)])
+                sc(&[("xfer", 0), ("xfer-lag", 0), ("xfer-lag2", 0), ("xfer-race", 0), ("xfer-abort", 0), ("xfer-abort-pvcq", 0), ("xfer-cc-al", 0), ("xfer-pipe", 0), ("xfer-lag-cc", 0), ("xfer-race-two", 0), ("xfer", 1), ("xfer-race", 1)])
             } else {
-                sc(&[("xfer", 0), ("xfer-lag", 0), ("xfer-lag2", 0), ("xfer-race", 0), ("xfer-abort", 0), ("xfer-abort-pvcq", 0), ("xfer-cc-al", 0), ("xfer-pipe", 0), ("xfer-lag-cc", 0), ("xfer", 1), ("xfer-race", 1), ("xfer-pipe", 1), ("xfer-abort", 1), ("xfer-pvcq", 1), ("xfer-lag", 1), ("xfer-abort", 2), ("xfer-lag2", 1), ("xfer-race", 2), ("xfer", 2), ("xfer", 3)])
+                sc(&[("xfer", 0), ("xfer-lag", 0), ("xfer-lag2", 0), ("xfer-race", 0), ("xfer-abort", 0), ("xfer-abort-pvcq", 0), ("xfer-cc-al", 0), ("xfer-pipe", 0), ("xfer-lag-cc", 0), ("xfer-race-two", 0), ("xfer", 1), ("xfer-race", 1), ("xfer-pipe", 1), ("xfer-abort", 1), ("xfer-pvcq", 1), ("xfer-lag", 1), ("xfer-abort", 2), ("xfer-lag2", 1), ("xfer-race", 2), ("xfer", 2), ("xfer", 3)])
             };
             p.required_stats = vec![Stat::TransfersStarted, Stat::TimeoutNowSent, Stat::ProposalsRefused];
             p.explanation = "explicit-state exploration over all targets (voters, learner, unknown id, the leader itself), repeated and competing requests at leader and follower, lagging target, message loss; MsgTimeoutNow only to a caught-up target, proposals refused while pending, abort within election_tick leader ticks or when the target leaves the voters, bad targets are no-ops".into();
         }
         "C20" => {
             p.scenarios = if q {
-                sc(&[("elect", 1), ("fig8-div", 1), ("crash2", 1), ("over", 0), ("crash2-split", 2), ("member-jd", 0), ("member-fresh", 1), ("elect-pvcq-dead1-minx", 0), ("elect-cq-dead1-minx", 0), ("read-regain", 0), ("read-regain", 1), ("snap-jauto", 0), ("crash2-page-adv", 3), ("member-fresh-api", 1), ("member-rm1-camp", 0), ("crash2-unpmax", 1), ("crash2-unpmax", 2), ("read-samectx", 0), ("read-samectx", 1), ("elect-pv-prio", 1), ("elect-api", 1), ("snap-api", 0), ("xfer-api", 0), ("member-joint-api", 1), ("read-rm1-api", 2), ("crash2-split-api", 2), ("crash2-async", 1), ("member-joint", 1), ("lease", 1), ("snap", 0), ("snap-lazy", 0), ("snap-lag", 0), ("repl-compact-memq", 0), ("repl-compact", 0), ("xfer-lag-cc", 0), ("xfer", 0), ("repl-i1-sz", 1), ("repl-mix", 0), ("read", 1), ("flow", 0), ("flow-cap", 0), ("stale", 0), ("member-rm1", 0), ("member-rm1-2v", 0), ("xfer-abort", 0), ("member", 0), ("xfer-pipe", 0), ("crash2-async-loose", 1), ("stale-async", 0), ("stale-lazy", 0), ("snap-req", 0)])
+                sc(&[("elect", 1), ("fig8-div", 1), ("crash2", 1), ("over", 0), ("crash2-split", 2), ("member-jd", 0), ("member-fresh", 1), ("elect-pvcq-dead1-minx", 0), ("elect-cq-dead1-minx", 0), ("read-regain", 0), ("read-regain", 1), ("snap-jauto", 0), ("crash2-page-adv", 3), ("member-fresh-api", 1), ("member-rm1-camp", 0), ("crash2-unpmax", 1), ("crash2-unpmax", 2), ("read-samectx", 0), ("read-samectx", 1), ("elect-pv-prio", 1), ("elect-nprio", 1), ("elect-api", 1), ("snap-api", 0), ("xfer-api", 0), ("member-joint-api", 1), ("read-rm1-api", 2), ("crash2-split-api", 2), ("crash2-async", 1), ("member-joint", 1), ("lease", 1), ("snap", 0), ("snap-lazy", 0), ("snap-lag", 0), ("repl-compact-memq", 0), ("repl-compact", 0), ("xfer-lag-cc", 0), ("xfer", 0), ("repl-i1-sz", 1), ("repl-mix", 0), ("read", 1), ("flow", 0), ("flow-cap", 0), ("stale", 0), ("member-rm1", 0), ("member-rm1-2v", 0), ("xfer-abort", 0), ("member", 0), ("xfer-pipe", 0), ("crash2-async-loose", 1), ("stale-async", 0), ("stale-lazy", 0), ("snap-req", 0)])
             } else {
-                sc(&[("elect", 1), ("fig8-div", 1), ("crash2", 1), ("over", 0), ("crash2-split", 2), ("member-jd", 0), ("member-fresh", 1), ("elect-pvcq-dead1-minx", 0), ("elect-cq-dead1-minx", 0), ("read-regain", 0), ("read-regain", 1), ("snap-jauto", 0), ("crash2-page-adv", 3), ("member-fresh-api", 1), ("member-rm1-camp", 0), ("crash2-unpmax", 1), ("crash2-unpmax", 2), ("read-samectx", 0), ("read-samectx", 1), ("elect-pv-prio", 1), ("elect-api", 1), ("snap-api", 0), ("xfer-api", 0), ("member-joint-api", 1), ("read-rm1-api", 2), ("crash2-split-api", 2), ("crash2-async", 1), ("member-joint", 1), ("lease", 1), ("snap", 0), ("snap-lazy", 0), ("snap-lag", 0), ("repl-compact-memq", 0), ("repl-compact", 0), ("xfer-lag-cc", 0), ("xfer", 0), ("repl-i1-sz", 1), ("repl-mix", 0), ("read", 1), ("flow", 0), ("flow-cap", 0), ("stale", 0), ("member-rm1", 0), ("member-rm1-2v", 0), ("xfer-abort", 0), ("member", 0), ("xfer-pipe", 0), ("crash2-async-loose", 1), ("stale-async", 0), ("stale-lazy", 0), ("snap-req", 0), ("member-rm1-lazy", 1), ("member-rm1-async", 1), ("read-lease", 1), ("read-nofwd", 1), ("repl-fetch", 1), ("repl-gc", 1), ("elect-prio", 1), ("member-mix", 1), ("crash3", 1), ("repl-batch", 1), ("snap", 1), ("stale-lazy", 1), ("stale-async", 1), ("member", 1), ("crash3-lazy", 1), ("crash2-async-loose", 2), ("crash3-async", 1), ("over", 1), ("over-two", 0), ("over-loose", 0), ("fig8", 1), ("xfer", 1), ("flow", 1), ("member-jd", 1), ("elect-pv", 2), ("snap-lazy-unp", 1), ("member-rm1-api", 0), ("stale-api", 0), ("member-rm1-2v-api", 0), ("snap-req-api", 0), ("repl-compact-memq", 1), ("repl-compact", 1), ("snap-memq", 2), ("snap-fig8-memq", 1)])
+                sc(&[("elect", 1), ("fig8-div", 1), ("crash2", 1), ("over", 0), ("crash2-split", 2), ("member-jd", 0), ("member-fresh", 1), ("elect-pvcq-dead1-minx", 0), ("elect-cq-dead1-minx", 0), ("read-regain", 0), ("read-regain", 1), ("snap-jauto", 0), ("crash2-page-adv", 3), ("member-fresh-api", 1), ("member-rm1-camp", 0), ("crash2-unpmax", 1), ("crash2-unpmax", 2), ("read-samectx", 0), ("read-samectx", 1), ("elect-pv-prio", 1), ("elect-nprio", 1), ("elect-api", 1), ("snap-api", 0), ("xfer-api", 0), ("member-joint-api", 1), ("read-rm1-api", 2), ("crash2-split-api", 2), ("crash2-async", 1), ("member-joint", 1), ("lease", 1), ("snap", 0), ("snap-lazy", 0), ("snap-lag", 0), ("repl-compact-memq", 0), ("repl-compact", 0), ("xfer-lag-cc", 0), ("xfer", 0), ("repl-i1-sz", 1), ("repl-mix", 0), ("read", 1), ("flow", 0), ("flow-cap", 0), ("stale", 0), ("member-rm1", 0), ("member-rm1-2v", 0), ("xfer-abort", 0), ("member", 0), ("xfer-pipe", 0), ("crash2-async-loose", 1), ("stale-async", 0), ("stale-lazy", 0), ("snap-req", 0), ("member-rm1-lazy", 1), ("member-rm1-async", 1), ("read-lease", 1), ("read-nofwd", 1), ("repl-fetch", 1), ("repl-gc", 1), ("elect-prio", 1), ("member-mix", 1), ("crash3", 1), ("repl-batch", 1), ("snap", 1), ("stale-lazy", 1), ("stale-async", 1), ("member", 1), ("crash3-lazy", 1), ("crash2-async-loose", 2), ("crash3-async", 1), ("over", 1), ("over-two", 0), ("over-loose", 0), ("fig8", 1), ("xfer", 1), ("flow", 1), ("member-jd", 1), ("elect-pv", 2), ("snap-lazy-unp", 1), ("member-rm1-api", 0), ("stale-api", 0), ("member-rm1-2v-api", 0), ("snap-req-api", 0), ("repl-compact-memq", 1), ("repl-compact", 1), ("snap-memq", 2), ("snap-fig8-memq", 1)])
             };
             p.required_stats = vec![Stat::BadMsgOffered, Stat::ReadyChecked, Stat::MsgsReleased, Stat::ApiProbes];
             p.explanation = "every API call of every explored execution runs under catch_unwind: a panic, failed assert!/debug_assert!, fatal!, index out of bounds or arithmetic overflow (debug-assertions and overflow-checks are on) is a violation; in every state local-only message types and responses from non-members are offered to step() on a clone and must be rejected with the documented error without changing the state digest; in the -api scenarios every public RawNode entry point (read_index, request_snapshot, ping, campaign, transfer_leader / report_unreachable / report_snapshot with member, own and unknown ids, propose, propose_conf_change) is offered to a clone of every node in every state and must not panic".into();
